@@ -21,7 +21,9 @@ Inductive pkind :=
 | PValue            (* str/int/bool/float/bytes (or Optional of these): compared by value, immutable *)
 | PObject.          (* anything else: compared through a user-defined __eq__/__hash__, which may see less than the function reads *)
 
-Record site := { s_file : str; s_name : str; s_kind : skind; s_params : list (str * pkind); s_flag : bool; s_key : str }.
+Record site := { s_file : str; s_name : str; s_kind : skind; s_params : list (str * pkind); s_flag : bool; s_key : str;
+                 s_value_mutable : bool;    (* the memoised VALUE is not a str/int/bool/float/bytes: every caller gets the same object *)
+                 s_value_mutated : bool }.  (* some code stores into / calls a mutator on / setattr's an object obtained from it *)
 (* s_flag: KLruFunction -> the body reads only its parameters and module-level imports/definitions/constants;
            KClassContainer/KModuleContainer -> some code of the module stores into the container;
            KClassSingleton -> _generate_code replaces the object at the start of every file *)
@@ -37,6 +39,7 @@ Definition is_value (p : str * pkind) : bool := pkind_eqb (snd p) PValue.
    (lru_call_transparent / proj_cache_transparent: identity of self + arguments compared by value), or the state is per
    instance (a function of the instance), or it is never written, or it is re-created for every file *)
 Definition site_ok (s : site) : bool :=
+  negb (s_value_mutated s) &&       (* a memoised object that a caller modifies carries state from one caller to the next *)
   match s_kind s with
   | KLruMethod => match s_params s with
                   | (_, PSelfIdentity) :: rest => forallb is_value rest
@@ -58,10 +61,7 @@ Definition skind_eqb (a b : skind) : bool :=
   end.
 
 (* sites known NOT to be admissible, each tied to a listed finding that the check probes at run time *)
-Definition known_inadmissible : list (str * str) :=
-  [ ([108; 97; 110; 103; 47; 95; 108; 97; 110; 103; 117; 97; 103; 101; 46; 112; 121],
-     [76; 97; 110; 103; 117; 97; 103; 101; 46; 103; 101; 116; 95; 100; 101; 112; 101; 110; 100; 101; 110; 99; 121; 95; 98; 117; 105; 108; 100; 101; 114])
-    (* lang/_language.py Language.get_dependency_builder : keyed by a pydsdl object (F-DEPBUILDER-STALE) *) ].
+Definition known_inadmissible : list (str * str) := [].     (* none at present (F-DEPBUILDER-STALE was fixed in f1abaa9: the memo is gone) *)
 
 Definition is_known_inadmissible (s : site) : bool :=
   existsb (fun e => str_eqb (fst e) (s_file s) && str_eqb (snd e) (s_name s)) known_inadmissible.
@@ -88,7 +88,6 @@ Definition expected_sites : list (str * str * skind) :=
    ([108; 97; 110; 103; 47; 95; 99; 111; 109; 109; 111; 110; 46; 112; 121], [85; 110; 105; 113; 117; 101; 78; 97; 109; 101; 71; 101; 110; 101; 114; 97; 116; 111; 114; 46; 95; 115; 105; 110; 103; 108; 101; 116; 111; 110], KClassSingleton) (* lang/_common.py UniqueNameGenerator._singleton *);
    ([108; 97; 110; 103; 47; 95; 99; 111; 109; 109; 111; 110; 46; 112; 121], [84; 111; 107; 101; 110; 69; 110; 99; 111; 100; 101; 114; 46; 115; 116; 114; 111; 112], KLruMethod) (* lang/_common.py TokenEncoder.strop *);
    ([108; 97; 110; 103; 47; 95; 99; 111; 110; 102; 105; 103; 46; 112; 121], [86; 101; 114; 115; 105; 111; 110; 82; 101; 97; 100; 101; 114; 46; 95; 99; 97; 99; 104; 101; 100], KInstanceLazy) (* lang/_config.py VersionReader._cached *);
-   ([108; 97; 110; 103; 47; 95; 108; 97; 110; 103; 117; 97; 103; 101; 46; 112; 121], [76; 97; 110; 103; 117; 97; 103; 101; 46; 103; 101; 116; 95; 100; 101; 112; 101; 110; 100; 101; 110; 99; 121; 95; 98; 117; 105; 108; 100; 101; 114], KLruMethod) (* lang/_language.py Language.get_dependency_builder *);
    ([108; 97; 110; 103; 47; 95; 108; 97; 110; 103; 117; 97; 103; 101; 46; 112; 121], [76; 97; 110; 103; 117; 97; 103; 101; 46; 95; 103; 108; 111; 98; 97; 108; 115], KInstanceLazy) (* lang/_language.py Language._globals *);
    ([108; 97; 110; 103; 47; 95; 108; 97; 110; 103; 117; 97; 103; 101; 46; 112; 121], [76; 97; 110; 103; 117; 97; 103; 101; 67; 108; 97; 115; 115; 76; 111; 97; 100; 101; 114; 46; 95; 99; 111; 110; 102; 105; 103], KInstanceLazy) (* lang/_language.py LanguageClassLoader._config *);
    ([108; 97; 110; 103; 47; 95; 108; 97; 110; 103; 117; 97; 103; 101; 46; 112; 121], [76; 97; 110; 103; 117; 97; 103; 101; 67; 108; 97; 115; 115; 76; 111; 97; 100; 101; 114; 46; 108; 111; 97; 100; 95; 108; 97; 110; 103; 117; 97; 103; 101; 95; 99; 108; 97; 115; 115], KLruMethod) (* lang/_language.py LanguageClassLoader.load_language_class *);
